@@ -42,22 +42,34 @@ static void owner (void *a) {
 		if (vrt_sh_get (TAKES) > vrt_sh_get (POSTS)) vrt_fail ("C12", "P succeeded %ld times with only %ld posts", vrt_sh_get (TAKES), vrt_sh_get (POSTS));
 	}
 	/* final accounting (counting semaphore): once every poster has finished, the posts not taken by a successful P must still be
-	   on the semaphore -- drain it with timed P calls whose deadline has passed (each returns 0 while a post is left); a call that
-	   reported ETIMEDOUT must not have consumed one */
+	   on the semaphore -- drain it with timed P calls whose deadline lies shortly in the FUTURE of the virtual clock (the property
+	   does not say whether a timed P whose deadline has passed still takes an available post, so no expired deadline is used):
+	   a post that is still there makes the call return 0 ("a post makes a ... future wait return"); with the count at 0 the call
+	   blocks in the (modelled) kernel until the deadline and reports ETIMEDOUT.  Nobody posts any more, so a call that BLOCKED found
+	   the count at 0 for good: that ends the drain.  An ETIMEDOUT from a call that never blocked (the virtual clock may jump past
+	   the deadline before the call looks at the count) decides nothing and is retried with a new deadline. */
 	if (vrt_opt ("DRAIN", 1)) {
+		int undecided = 0, decided = 0;
+		int64_t start = ts_ns (vrt_abs (0));
 		for (k = 0; k < n_posters; k++) { while (!vrt_is_finished (poster_tid[k])) vrt_yield (); }
-		for (;;) {
-			nsync_time dl = vrt_abs (-1000);
+		while (!decided && undecided < 10) {
+			nsync_time dl = vrt_abs (vrt_now_ns () - start + 3000);
+			long slept = vrt_sleeps_of (vrt_self ());
 			int r;
 			vrt_note ("call tp %lld %lld", (long long) dl.tv_sec, (long long) dl.tv_nsec);
 			r = nsync_mu_semaphore_p_with_deadline (&sem, dl);
 			vrt_note ("ret %d", r);
-			if (r != 0) break;
-			vrt_sh_add (TAKES, 1);
-			vrt_count ("drain_ok");
-			if (vrt_sh_get (TAKES) > vrt_sh_get (POSTS)) vrt_fail ("C12", "P succeeded %ld times with only %ld posts", vrt_sh_get (TAKES), vrt_sh_get (POSTS));
+			if (r == 0) {
+				vrt_sh_add (TAKES, 1);
+				vrt_count ("drain_ok");
+				if (vrt_sh_get (TAKES) > vrt_sh_get (POSTS)) vrt_fail ("C12", "P succeeded %ld times with only %ld posts", vrt_sh_get (TAKES), vrt_sh_get (POSTS));
+			} else if (r == ETIMEDOUT) {
+				if (vrt_now_ns () < ts_ns (dl)) vrt_fail ("C12", "timed P returned ETIMEDOUT at %lld, before its deadline %lld", (long long) vrt_now_ns (), (long long) ts_ns (dl));
+				if (vrt_sleeps_of (vrt_self ()) != slept) decided = 1; else { undecided++; vrt_count ("drain_retry"); }
+			} else vrt_fail ("C12", "timed P returned %d", r);
 		}
-		if (vrt_sh_get (TAKES) != vrt_sh_get (POSTS))
+		if (!decided) vrt_count ("drain_undecided");
+		else if (vrt_sh_get (TAKES) != vrt_sh_get (POSTS))
 			vrt_fail ("C12", "%ld posts were made but only %ld could ever be taken: a post was lost (consumed by a P that did not report success)",
 				  vrt_sh_get (POSTS), vrt_sh_get (TAKES));
 	}
